@@ -17,7 +17,7 @@ REQUIRED_HOOKS = [
     "BeckeWeights.__call__:chunks>=5",
     "HirshfeldWeights.__call__",
 ]
-REQUIRED_FAMILIES = ["becke-structured", "becke-random", "becke-noble", "becke-select", "becke-axis", "becke-molgrid", "hirshfeld-random", "hirshfeld-molgrid"]
+REQUIRED_FAMILIES = ["input-forms", "becke-structured", "becke-random", "becke-noble", "becke-select", "becke-axis", "becke-molgrid", "hirshfeld-random", "hirshfeld-molgrid"]
 BUDGET = {"quick": 900, "thorough": 9000}
 RULE = (
     "One case = one molecule (1..40 atoms, elements 1..86 incl. He/Ne/Ar/Kr/Xe/At/Rn whose Bragg radius is NaN, geometries random / "
@@ -112,6 +112,17 @@ def cases(tier, seed):
     for k in range(6 if q else 40):
         out.append(("becke-beyond-resolution", {"k": k, "M": int(rng.integers(2, 13)), "order": int(rng.integers(1, 7))}, 60.0))
     out.append(("zero-points", {}, 10.0))
+    # same values handed over in other array forms (integer lattices, float32, strided / Fortran views, read-only)
+    k = 0
+    for m in ([1, 2, 3, 4, 5, 7, 9] if q else [1, 2, 3, 4, 5, 6, 7, 8, 9, 10, 12]):
+        for pk, ak in (("lattice", "lattice"), ("lattice", "general"), ("general", "general"), ("general", "lattice")):
+            for rep in range(2 if q else 12):
+                out.append(("input-forms", {"k": k, "M": m, "order": 1 + k % 6, "points": pk, "atoms": ak, "scheme": "becke"}, 40.0 + 4.0 * m**3))
+                k += 1
+            for rep in range(1 if q else 4):
+                if m <= 7:
+                    out.append(("input-forms", {"k": k, "M": m, "order": 3, "points": pk, "atoms": ak, "scheme": "hirshfeld"}, 40.0 + m * m))
+                    k += 1
     return out
 
 
@@ -248,11 +259,15 @@ def custom_radii(rng, atnums):
 
 
 # ------------------------------------------------------------------ routes of the real API
-def matrix_by_call(bw, pts, at, nums):
+_ID = (lambda x: x, lambda x: x, lambda x: x)  # (points form, atcoords form, atnums form): identity
+
+
+def matrix_by_call(bw, pts, at, nums, form=_ID):
     """atoms x points matrix through the chunked whole-grid entry point (tiled point set, one segment per atom)."""
     m, n = len(at), len(pts)
+    fp, fa, fn = form
     mon.reset_run()
-    w = bw(np.tile(pts, (m, 1)), at, nums, np.arange(m + 1) * n)
+    w = bw(fp(np.tile(pts, (m, 1))), fa(at), fn(nums), np.arange(m + 1) * n)
     return w.reshape(m, n), mon.STATE["last_call_chunks"]
 
 
@@ -261,34 +276,37 @@ def _blocks(m, n, cap=1.5e6):
     return [(a, min(m, a + per)) for a in range(0, m, per)]
 
 
-def matrix_by_generate(bw, pts, at, nums, variant=0):
+def matrix_by_generate(bw, pts, at, nums, variant=0, form=_ID):
     m, n = len(at), len(pts)
+    fp, fa, fn = form
     out = np.zeros((m, n))
     for a, b in _blocks(m, n):
         if b - a == 1:
             sel = a if variant % 2 == 0 else np.int64(a)
-            out[a] = bw.generate_weights(pts, at, nums, select=sel)
+            out[a] = bw.generate_weights(fp(pts), fa(at), fn(nums), select=sel)
         else:
             sel = list(range(a, b)) if variant % 2 == 0 else np.arange(a, b)
-            out[a:b] = bw.generate_weights(np.tile(pts, (b - a, 1)), at, nums, select=sel, pt_ind=list(np.arange(b - a + 1) * n)).reshape(b - a, n)
+            out[a:b] = bw.generate_weights(fp(np.tile(pts, (b - a, 1))), fa(at), fn(nums), select=sel, pt_ind=list(np.arange(b - a + 1) * n)).reshape(b - a, n)
     mon.reset_run()
     return out
 
 
-def matrix_by_compute_weights(bw, pts, at, nums, variant=0):
+def matrix_by_compute_weights(bw, pts, at, nums, variant=0, form=_ID):
     m, n = len(at), len(pts)
+    fp, fa, fn = form
     out = np.zeros((m, n))
     for a, b in _blocks(m, n, cap=6e6):
         if b - a == 1:
-            out[a] = bw.compute_weights(pts, at, nums, select=a)
+            out[a] = bw.compute_weights(fp(pts), fa(at), fn(nums), select=a)
         else:
             sel = list(range(a, b)) if variant % 2 else np.arange(a, b)
-            out[a:b] = bw.compute_weights(np.tile(pts, (b - a, 1)), at, nums, select=sel, pt_ind=np.arange(b - a + 1) * n).reshape(b - a, n)
+            out[a:b] = bw.compute_weights(fp(np.tile(pts, (b - a, 1))), fa(at), fn(nums), select=sel, pt_ind=np.arange(b - a + 1) * n).reshape(b - a, n)
     return out
 
 
-def matrix_by_atom(bw, pts, at, nums):
-    return np.array([bw.compute_atom_weight(pts, at, nums, i) for i in range(len(at))])
+def matrix_by_atom(bw, pts, at, nums, form=_ID):
+    fp, fa, fn = form
+    return np.array([bw.compute_atom_weight(fp(pts), fa(at), fn(nums), i) for i in range(len(at))])
 
 
 def _sum_check(ctx, subject, w, pts, extra):
@@ -741,6 +759,190 @@ def zero_points_case(ctx, params):
     ctx.trivial()
 
 
+# ------------------------------------------------------------------ input forms of the documented array arguments
+def _rows_view(x):
+    big = np.full((2 * len(x) + 1,) + x.shape[1:], 7, dtype=x.dtype)
+    big[1::2] = x
+    return big[1::2]
+
+
+def _cols_view(x):
+    if x.ndim == 1:
+        return _rows_view(x)
+    big = np.full((len(x), 2 * x.shape[1]), 7, dtype=x.dtype)
+    big[:, ::2] = x
+    return big[:, ::2]
+
+
+def _readonly(x):
+    y = np.array(x)
+    y.setflags(write=False)
+    return y
+
+
+_F64 = lambda x: x  # noqa: E731
+# name -> (points form, atcoords form, atnums form, needs integral coordinates of (points, atoms), all-single-precision)
+FORMS = {
+    "points-int64": (lambda x: x.astype(np.int64), _F64, _F64, (True, False), False),
+    "points-int32": (lambda x: x.astype(np.int32), _F64, _F64, (True, False), False),
+    "points+atcoords-int64": (lambda x: x.astype(np.int64), lambda x: x.astype(np.int64), _F64, (True, True), False),
+    "atcoords-int64": (_F64, lambda x: x.astype(np.int64), _F64, (False, True), False),
+    "points-float32": (lambda x: x.astype(np.float32), _F64, _F64, (False, False), False),
+    "atcoords-float32": (_F64, lambda x: x.astype(np.float32), _F64, (False, False), False),
+    "points+atcoords-float32": (lambda x: x.astype(np.float32), lambda x: x.astype(np.float32), _F64, (False, False), True),
+    "points-strided-rows": (_rows_view, _F64, _F64, (False, False), False),
+    "points-strided-columns": (_cols_view, _F64, _F64, (False, False), False),
+    "points-fortran": (np.asfortranarray, _F64, _F64, (False, False), False),
+    "atcoords-strided+fortran": (_F64, lambda x: np.asfortranarray(_cols_view(x)), _rows_view, (False, False), False),
+    "all-readonly": (_readonly, _readonly, _readonly, (False, False), False),
+    "atnums-int32": (_F64, _F64, lambda x: x.astype(np.int32), (False, False), False),
+    "atnums-float64": (_F64, _F64, lambda x: x.astype(np.float64), (False, False), False),
+    "points-int64-strided": (lambda x: _rows_view(x.astype(np.int64)), _F64, lambda x: x.astype(np.int32), (True, False), False),
+}
+TOL_FORM = 1e-13
+
+
+def forms_case(ctx, params):
+    """Same VALUES handed over as integer / float32 / strided / Fortran-ordered / read-only arrays: every route must
+    return what it returns for the float64 C-contiguous copy (the values are chosen representable in the narrower type)."""
+    from grid.becke import BeckeWeights
+    from grid.hirshfeld import HirshfeldWeights
+
+    rng = ctx.rng
+    m, order = int(params["M"]), int(params["order"])
+    lattice_pts = params["points"] == "lattice"
+    lattice_at = params["atoms"] == "lattice"
+    # atoms
+    if lattice_at:
+        side = int(np.ceil(m ** (1.0 / 3.0))) + 1
+        g = np.array([(i, j, k) for i in range(side) for j in range(side) for k in range(side)], dtype=float)
+        at = g[rng.permutation(len(g))[:m]] * float(rng.integers(1, 4)) - float(rng.integers(0, 3))
+    else:
+        at = make_atoms(rng, m, "random" if rng.random() < 0.7 else "collinear")
+        if at is None:
+            ctx.discard("generator could not place atoms")
+            return
+        at = at.astype(np.float32).astype(np.float64)  # representable in single precision
+        if mon.min_atom_distance(at) < 0.05:
+            ctx.discard("atoms too close after rounding to float32")
+            return
+    # points
+    if lattice_pts:
+        lo = np.floor(at.min(axis=0)).astype(int) - int(rng.integers(0, 3))
+        hi = np.ceil(at.max(axis=0)).astype(int) + int(rng.integers(1, 4))
+        gx, gy, gz = np.mgrid[lo[0] : hi[0] + 1, lo[1] : hi[1] + 1, lo[2] : hi[2] + 1]
+        lat = np.stack([gx.ravel(), gy.ravel(), gz.ravel()], axis=1).astype(float)
+        pts = lat[rng.permutation(len(lat))[: int(rng.integers(24, 49))]]
+        far = np.round(_unit(rng, 4) * np.array([30.0, 1e3, 1e5, 1e8])[:, None])
+        pts = np.concatenate([pts, far])
+    else:
+        pts, _ = make_points(rng, at, 36, far_max=1e4)
+        pts = pts.astype(np.float32).astype(np.float64)
+    if lattice_at or not lattice_pts:
+        pts = np.concatenate([at[rng.permutation(m)[: min(m, 6)]], pts])  # exact nuclei among the points
+    pts = np.ascontiguousarray(pts)
+    n = len(pts)
+    scheme = params["scheme"]
+    extra = {"M": m, "order": order, "points": params["points"], "atoms": params["atoms"]}
+    names = [k for k, f in FORMS.items() if (not f[3][0] or lattice_pts) and (not f[3][1] or lattice_at)]
+    if scheme == "becke":
+        nums = make_elements(rng, m, ELEMS[int(rng.integers(len(ELEMS)))])
+        bw = BeckeWeights(order=order)
+        routes = {
+            "__call__": lambda form: matrix_by_call(bw, pts, at, nums, form)[0],
+            "generate_weights": lambda form: matrix_by_generate(bw, pts, at, nums, 0, form),
+            "compute_weights": lambda form: matrix_by_compute_weights(bw, pts, at, nums, 1, form),
+            "compute_atom_weight": lambda form: matrix_by_atom(bw, pts, at, nums, form),
+        }
+        base = {}
+        for rname, fn in routes.items():
+            with ctx.guard("no-exception", "BeckeWeights." + rname):
+                base[rname] = fn(_ID)
+                _sum_check(ctx, "BeckeWeights." + rname, base[rname], pts, extra)
+        if len(base) < 4:
+            return
+        _agree(ctx, "__call__(chunked) vs generate_weights", base["__call__"], base["generate_weights"], TOL_ROUTE, extra)
+        _agree(ctx, "generate_weights vs compute_atom_weight", base["generate_weights"], base["compute_atom_weight"], TOL_ROUTE, extra)
+        _agree(ctx, "compute_weights vs compute_atom_weight", base["compute_weights"], base["compute_atom_weight"], TOL_ROUTE, extra)
+        err32 = None
+        idx = random_segments(rng, n, m)
+        own = mon.owners_from_indices(n, idx)
+        for name in names:
+            fp, fa, fnn, _need, single = FORMS[name]
+            form = (fp, fa, fnn)
+            ctx.count("input-form:" + name)
+            if single:
+                coord = np.abs(pts).max(axis=1) + np.abs(at).max()
+                e = forward_error_bound(at, pts, nums, None, order, coord)
+                err32 = None if e is None else 1e-6 + 8.0 * e * (np.finfo(np.float32).eps / np.finfo(float).eps)
+            for rname, fn in routes.items():
+                subj = f"BeckeWeights.{rname}[{name}]"
+                with ctx.guard("input-form-invariant", subj):
+                    got = fn(form)
+                    if got.shape != base[rname].shape:
+                        ctx.check("input-form-invariant", subj, False, sig="shape", detail=extra)
+                        continue
+                    d = np.abs(got - base[rname])
+                    d = np.where(np.isnan(d), np.inf, d)
+                    if single:
+                        # everything in single precision: compare within the single-precision conditioning of the formula
+                        if err32 is None:
+                            continue
+                        ok = err32 < 1e-3
+                        if not ok.any():
+                            continue
+                        ratio = np.where(ok, d / err32, 0.0)
+                        k = np.unravel_index(int(np.argmax(ratio)), ratio.shape)
+                        ctx.check("input-form-invariant-single", subj, float(ratio[k]), 1.0, sig="differs-from-float64-copy", detail={"abs_diff": float(d[k]), "bound": float(err32[k]), "point": pts[k[1]], **extra})
+                    else:
+                        k = np.unravel_index(int(np.argmax(d)), d.shape)
+                        ctx.check("input-form-invariant", subj, float(d[k]), TOL_FORM, sig="differs-from-float64-copy", detail={"abs_diff": float(d[k]), "got": float(got[k]), "float64": float(base[rname][k]), "point": pts[k[1]], "atom": int(k[0]), **extra})
+            # segment-wise whole-grid call in this form
+            subj = f"BeckeWeights.__call__(segments)[{name}]"
+            if not single:
+                with ctx.guard("input-form-invariant", subj):
+                    mon.reset_run()
+                    got = bw(fp(pts), fa(at), fnn(nums), idx)
+                    d = np.abs(got - base["compute_atom_weight"][own, np.arange(n)])
+                    ctx.check("input-form-invariant", subj, float(np.max(np.where(np.isnan(d), np.inf, d))), TOL_FORM, sig="differs-from-float64-copy", detail=extra)
+    else:
+        nums = np.asarray(rng.choice(HIRSH_ELEMS, m), dtype=np.int64)
+        keep = np.linalg.norm(pts[:, None, :] - at[None, :, :], axis=-1).max(axis=1) < 12.0
+        pts = np.ascontiguousarray(pts[keep])
+        n = len(pts)
+        if n < 4:
+            ctx.discard("no points in the well-conditioned Hirshfeld range")
+            return
+        hw = HirshfeldWeights()
+        base = hirshfeld_matrix(ctx, hw, pts, at, nums)
+        if base is None:
+            return
+        for name in names:
+            fp, fa, fnn, _need, single = FORMS[name]
+            ctx.count("input-form:hirshfeld:" + name)
+            subj = f"HirshfeldWeights.__call__[{name}]"
+            try:
+                got = np.array([hw(fp(pts), fa(at), fnn(nums), np.array([0] * (i + 1) + [n] * (m - i))) for i in range(m)])
+            except TypeError as exc:
+                if "atnums dtype" in str(exc) and name.startswith("atnums-") or "points-int64-strided" == name:
+                    ctx.count("input-form:hirshfeld-rejected-by-documented-dtype-check:" + name)
+                    continue
+                ctx.fail("input-form-invariant", subj, "raised:TypeError", detail={"error": str(exc)[:200], **extra})
+                continue
+            except Exception as exc:  # noqa: BLE001
+                from gridrv import core
+
+                if core.is_library_exception(exc):
+                    ctx.fail("input-form-invariant", subj, f"raised:{type(exc).__name__}", detail={"error": str(exc)[:200], **extra})
+                    continue
+                raise
+            d = np.abs(got - base)
+            d = np.where(np.isnan(d), np.inf, d)
+            k = np.unravel_index(int(np.argmax(d)), d.shape)
+            tol = 2e-5 if single else 1e-12
+            ctx.check("input-form-invariant-single" if single else "input-form-invariant", subj, float(d[k]), tol, sig="differs-from-float64-copy", detail={"abs_diff": float(d[k]), "point": pts[k[1]], **extra})
+
+
 def run_case(ctx, family, params):
     if family in ("becke-structured", "becke-random", "becke-noble"):
         becke_case(ctx, params, family)
@@ -760,5 +962,7 @@ def run_case(ctx, family, params):
         beyond_resolution_case(ctx, params)
     elif family == "zero-points":
         zero_points_case(ctx, params)
+    elif family == "input-forms":
+        forms_case(ctx, params)
     else:
         raise ValueError(family)
